@@ -131,6 +131,10 @@ func (r *Runner) writeLog(kind string, v any) {
 // (used in witnesses); f receives the case context. The case's random stream
 // depends only on (seed, property, seq), so a replay of a single case sees the
 // same stream.
+// AfterCase, when set, runs after every case (inside the same panic capture):
+// monitors of process-wide state that no single call returns.
+var AfterCase func(c *C)
+
 func (r *Runner) Case(id string, f func(c *C)) {
 	seq := r.seq
 	r.seq++
@@ -157,6 +161,9 @@ func (r *Runner) Case(id string, f func(c *C)) {
 			}
 		}()
 		f(c)
+		if AfterCase != nil {
+			AfterCase(c)
+		}
 	}()
 	r.cur.Store(nil)
 	r.sinceP++
